@@ -7,7 +7,10 @@
    normaliser of conditions.go builds for an expression (Or appends, And/then build all
    pairs, invert multiplies the inversion widths of the literals of every conjunct;
    ConditionsSet.Clean runs once, at the end of Parse, so nothing is simplified between
-   the steps).
+   the steps), and DNFVolume(ast): the largest intermediate number of literals.  The final
+   Clean compares every pair of conjuncts and re-cleans their union, i.e. it costs about
+   conjuncts^2 x literals-per-conjunct; "moderate size" (Moderate) therefore bounds both:
+   at most Cap conjuncts and at most VolCap literals.
 
    Three generator modes (constant Mode):
      "value"  : one term  [-][@a:]key[.conv]:VALUE ; VALUE is every sequence of symbols
@@ -40,6 +43,7 @@ VARIABLES seq, hd, done
 vars == <<seq, hd, done>>
 
 Cap == 300                       \* "a few hundred conjuncts"
+VolCap == 2000                   \* ... of a handful of literals each (literals of the largest intermediate form)
 
 Max2(a, b) == IF a >= b THEN a ELSE b
 
@@ -81,9 +85,13 @@ TermSet(key, n) ==
       [] key \in KeysData2 -> << <<1>>, <<1>> >>
       [] OTHER             -> <<>>
 
-BIG == [big |-> TRUE, set |-> <<>>, max |-> Cap + 1]
-Res(set, m) == IF Len(set) > Cap THEN BIG
-               ELSE [big |-> FALSE, set |-> set, max |-> Max2(m, Len(set))]
+\* max = largest number of conjuncts, vol = largest number of literals (sum over the conjuncts)
+\* of any intermediate set
+BIG == [big |-> TRUE, set |-> <<>>, max |-> Cap + 1, vol |-> 0]
+RECURSIVE LitsFrom(_, _)
+LitsFrom(set, i) == IF i > Len(set) THEN 0 ELSE Len(set[i]) + LitsFrom(set, i + 1)
+Res(set, m, v) == IF Len(set) > Cap THEN BIG
+                  ELSE [big |-> FALSE, set |-> set, max |-> Max2(m, Len(set)), vol |-> Max2(v, LitsFrom(set, 1))]
 
 IsData(l) == l > 0
 NonData(c) == SelectSeq(c, LAMBDA l : l <= 0)
@@ -109,10 +117,10 @@ PairSets(a, b, then) ==
 
 Pairs(ra, b, then) ==
     IF ra.big THEN BIG
-    ELSE IF ra.set = <<>> THEN Res(b, ra.max)
+    ELSE IF ra.set = <<>> THEN Res(b, ra.max, ra.vol)
     ELSE IF b = <<>> THEN ra
     ELSE IF Len(ra.set) * Len(b) > Cap THEN BIG
-    ELSE Res(PairSets(ra.set, b, then), ra.max)
+    ELSE Res(PairSets(ra.set, b, then), ra.max, ra.vol)
 
 \* Condition.invert of one literal (438-533)
 InvLit(l) == IF l = 0 THEN << <<0>> >>
@@ -127,7 +135,8 @@ InvFrom(acc, s, i) ==
     IF acc.big \/ i > Len(s) THEN acc
     ELSE LET w == InvConj(s[i]) IN
          IF Len(w) > Cap THEN BIG
-         ELSE InvFrom(Pairs([acc EXCEPT !.max = Max2(acc.max, Len(w))], w, FALSE), s, i + 1)
+         ELSE InvFrom(Pairs([acc EXCEPT !.max = Max2(acc.max, Len(w)), !.vol = Max2(acc.vol, LitsFrom(w, 1))],
+                            w, FALSE), s, i + 1)
 
 (* AST:  <<"nil">>            sort:/limit:/group: (no condition)
          <<"term", key, n>>
@@ -138,25 +147,28 @@ FoldOr(acc, xs, i) ==
     IF acc.big \/ i > Len(xs) THEN acc
     ELSE LET r == Eval(xs[i]) IN
          IF r.big THEN BIG
-         ELSE FoldOr(Res(acc.set \o r.set, Max2(acc.max, r.max)), xs, i + 1)
+         ELSE FoldOr(Res(acc.set \o r.set, Max2(acc.max, r.max), Max2(acc.vol, r.vol)), xs, i + 1)
 
 FoldPairs(acc, xs, i, then) ==
     IF acc.big \/ i > Len(xs) THEN acc
     ELSE LET r == Eval(xs[i]) IN
          IF r.big THEN BIG
-         ELSE FoldPairs(Pairs([acc EXCEPT !.max = Max2(acc.max, r.max)], r.set, then), xs, i + 1, then)
+         ELSE FoldPairs(Pairs([acc EXCEPT !.max = Max2(acc.max, r.max), !.vol = Max2(acc.vol, r.vol)], r.set, then),
+                        xs, i + 1, then)
 
 Eval(a) ==
-    CASE a[1] = "nil"  -> Res(<<>>, 0)
-      [] a[1] = "term" -> Res(TermSet(a[2], a[3]), 0)
+    CASE a[1] = "nil"  -> Res(<<>>, 0, 0)
+      [] a[1] = "term" -> Res(TermSet(a[2], a[3]), 0, 0)
       [] a[1] = "not"  -> LET r == Eval(a[2]) IN
-                          IF r.big THEN BIG ELSE InvFrom(Res(<<>>, r.max), r.set, 1)
-      [] a[1] = "or"   -> FoldOr(Res(<<>>, 0), a[2], 1)
-      [] a[1] = "and"  -> FoldPairs(Res(<<>>, 0), a[2], 1, FALSE)
-      [] a[1] = "then" -> FoldPairs(Res(<<>>, 0), a[2], 1, TRUE)
+                          IF r.big THEN BIG ELSE InvFrom(Res(<<>>, r.max, r.vol), r.set, 1)
+      [] a[1] = "or"   -> FoldOr(Res(<<>>, 0, 0), a[2], 1)
+      [] a[1] = "and"  -> FoldPairs(Res(<<>>, 0, 0), a[2], 1, FALSE)
+      [] a[1] = "then" -> FoldPairs(Res(<<>>, 0, 0), a[2], 1, TRUE)
 
 \* the largest intermediate number of conjuncts, saturating at Cap + 1
 DNFSize(ast) == Eval(ast).max
+\* the largest intermediate number of literals (0 when DNFSize is beyond the bound)
+DNFVolume(ast) == Eval(ast).vol
 
 \* =========================================================================================
 \* 2. The token grammar (parser.go:29-48) over LEXER-level tokens  [k, key, n]
@@ -212,9 +224,13 @@ ParseTokens(s) ==
     IF s = <<>> THEN Ok(<<"nil">>, 1)
     ELSE LET r == POr(s, 1) IN IF r.ok /\ r.pos = Len(s) + 1 THEN r ELSE Fail
 
+\* "moderate size" = the promptness claim of the property applies
+Moderate(j) == j.size <= Cap /\ j.vol <= VolCap
+
 \* what the checks need of a lexer-level token sequence
-Judge(s) == LET r == ParseTokens(s) IN
-            [syn |-> r.ok, size |-> IF r.ok THEN DNFSize(r.ast) ELSE 0]
+Judge(s) == LET r == ParseTokens(s)
+                e == IF r.ok THEN Eval(r.ast) ELSE BIG IN
+            [syn |-> r.ok, size |-> IF r.ok THEN e.max ELSE 0, vol |-> IF r.ok THEN e.vol ELSE 0]
 
 \* =========================================================================================
 \* 3. Value sub-grammars (valueparser.go): alphabets with malformed members, recognisers
@@ -471,7 +487,7 @@ Palette == <<
     Term("cdata", "", "", "u", "x{2,1}", 2, "no"),
     Term("cdata", "", "", "u", "@cport@", 1, "yes"),
     Term("sdata", "a", "", "q", "GET (<BS>S+) HTTP@a:cport@", 1, "yes"),
-    Term("data", "", "", "q", "a<DQ>b c)", 1, "yes"),
+    Term("data", "", "", "q", "a<DQ>b (c) ", 1, "yes"),
     Term("tag", "", "", "u", "a", 1, "yes"),
     Term("service", "", "", "u", "http,dns", 2, "yes"),
     Term("mark", "a", "", "u", "x", 1, "yes"),
@@ -605,7 +621,7 @@ Tokens == CASE Mode = "value"  -> ValueTokens(hd, seq)
 Record ==
     LET ts == Tokens  fl == Flat(Tokens)  j == Judge(Flat(Tokens)) IN
     [mode |-> Mode, vk |-> IF Mode = "value" THEN VK ELSE "", toks |-> ts, flat |-> fl,
-     syn |-> j.syn, size |-> j.size, wf |-> WellFormed(ts, j.syn)]
+     syn |-> j.syn, size |-> j.size, vol |-> j.vol, wf |-> WellFormed(ts, j.syn)]
 
 \* printing invariant (always true): one line per finished sequence
 Emit == done => PrintT("@@J" \o ToJson(Record))
@@ -622,6 +638,8 @@ SizeSanity ==
     /\ DNFSize(<<"not", <<"not", <<"term", "port", 1>>>>>>) = 16
     /\ DNFSize(<<"not", <<"not", <<"not", <<"term", "port", 1>>>>>>>>) = Cap + 1
     /\ DNFSize(<<"term", "port", 150>>) = 300
+    /\ DNFVolume(<<"term", "port", 150>>) = 600
+    /\ DNFVolume(<<"and", << <<"term", "port", 150>>, <<"not", <<"term", "tag", 40>>>> >> >>) = 300 * 42
     /\ DNFSize(<<"term", "port", 151>>) = Cap + 1
     /\ DNFSize(<<"and", << <<"term", "tag", 10>>, <<"term", "host", 5>> >> >>) = 100
     /\ DNFSize(<<"then", << <<"term", "data", 1>>, <<"term", "data", 1>>, <<"term", "cdata", 1>> >> >>) = 4
